@@ -4,9 +4,9 @@
     [settings_known], [spec_unknown_*], [spec_similar] (Model/BuildersSpec.v).
     All statements hold for EVERY registry [r], derive registry [dr] and substitute map
     [subs] (lists of any length, any mixture of known and unknown paths). *)
-From Coq Require Import List NArith String Bool.
+From Coq Require Import List NArith String Bool Permutation.
 From V Require Import Base.Strings Model.Registry Model.Settings Model.Subst Model.Builders
-  Model.BuildersSpec Proofs.BuildersProofs.
+  Model.BuildersSpec Model.Reach Model.ValidateSpec Proofs.BuildersProofs Proofs.ValidateSets.
 Import ListNotations.
 
 (** Validation succeeds iff every type-specific or recursive key with a non-empty derive
@@ -42,3 +42,44 @@ Theorem C11_similar :
   forall (r : registry) (q : list string), similar_type_paths r q = spec_similar r q.
 Proof. exact similar_spec. Qed.
 Print Assumptions C11_similar.
+
+(** validation as a function of sets.  [kmap_perm a b] (Model/Reach.v): two key maps with
+    pairwise distinct keys, the same keys and set-equal derive / attribute lists under equal
+    keys (a hash map iterated in another order, its sets filled in another order or with
+    repetitions); [segs_functional l] (Model/ValidateSpec.v): the token string of a key
+    determines its ident segments (both are read off the same [syn] path).  For two such
+    derive registries and substitute lists that are permutations of each other (any registry,
+    known and unknown paths mixed), the two errors are equal as sets: no key twice, the same
+    keys among the derives and among the attributes, set-equal lists under each key, and the
+    unknown substitutes are a permutation.  The default derives play no role. *)
+Theorem C11_validation_as_sets :
+  forall (r : registry) (subs1 subs2 : substitutes) (dr1 dr2 : derives_registry),
+    kmap_perm (dr_specific dr1) (dr_specific dr2) ->
+    kmap_perm (dr_recursive dr1) (dr_recursive dr2) ->
+    segs_functional ((dr_specific dr1 ++ dr_recursive dr1) ++ (dr_specific dr2 ++ dr_recursive dr2)) ->
+    Permutation subs1 subs2 ->
+    let e1 := validate subs1 dr1 r in
+    let e2 := validate subs2 dr2 r in
+    (NoDup (map fst (ve_derives e1)) /\ NoDup (map fst (ve_derives e2)) /\
+     (forall K, In K (map fst (ve_derives e1)) <-> In K (map fst (ve_derives e2))) /\
+     (forall K x y, In (K, x) (ve_derives e1) -> In (K, y) (ve_derives e2) -> same_set x y)) /\
+    (NoDup (map fst (ve_attrs e1)) /\ NoDup (map fst (ve_attrs e2)) /\
+     (forall K, In K (map fst (ve_attrs e1)) <-> In K (map fst (ve_attrs e2))) /\
+     (forall K x y, In (K, x) (ve_attrs e1) -> In (K, y) (ve_attrs e2) -> same_set x y)) /\
+    Permutation (ve_subs e1) (ve_subs e2).
+Proof. exact validate_as_sets. Qed.
+Print Assumptions C11_validation_as_sets.
+
+(** ... in particular validation succeeds on both or fails on both *)
+Theorem C11_validation_outcome_as_sets :
+  forall (r : registry) (subs1 subs2 : substitutes) (dr1 dr2 : derives_registry),
+    kmap_perm (dr_specific dr1) (dr_specific dr2) ->
+    kmap_perm (dr_recursive dr1) (dr_recursive dr2) ->
+    segs_functional ((dr_specific dr1 ++ dr_recursive dr1) ++ (dr_specific dr2 ++ dr_recursive dr2)) ->
+    Permutation subs1 subs2 ->
+    verror_is_empty (validate subs1 dr1 r) = verror_is_empty (validate subs2 dr2 r).
+Proof.
+  exact (fun r subs1 subs2 dr1 dr2 PS PR SF P =>
+           verror_same_empty _ _ (validate_as_sets r subs1 subs2 dr1 dr2 PS PR SF P)).
+Qed.
+Print Assumptions C11_validation_outcome_as_sets.
